@@ -129,6 +129,9 @@ def make_case(seed: int, stream: int):
                                                 mc_shape=stream // 3, twins=twins,
                                                 mc_position=['first', 'middle', 'last'][(stream // 3) % 3]
                                                 if wmc else None, big=stream % 7 == 6)
+    if stream % 7 == 3:
+        # a model file named by its author: the base name is no C++ identifier
+        enc['filename'] = ['my-model.dzn', 'dir/2nd.dzn', 'toaster.v2.dzn', 'a b.json'][(stream // 7) % 4]
     if twins:
         enc['provides'] = {'sts': 'NONE', 'mts': 'ALL'}
         enc['requires'] = {'sts': 'NONE', 'mts': 'ALL'}
